@@ -123,6 +123,8 @@ def shards(tier):
     out += [{'formulas': [F.to_json(f) for f in deep[i:i + 2]], 'deep': True} for i in range(0, len(deep), 2)]
     big = big_formulas()
     out += [{'formulas': [F.to_json(f) for f in big[i:i + 2]], 'big': True} for i in range(0, len(big), 2)]
+    it = int_formulas()
+    out += [{'formulas': [F.to_json(f) for f in it[i:i + 8]], 'ints': True} for i in range(0, len(it), 8)]
     return out
 
 
@@ -164,6 +166,25 @@ def big_formulas():
 def big_signal_sets(tier):
     sx = dref.signals_L(2, VBIG_X, 0.0, max_interior=1)
     sy = dref.signals_L(2, VBIG_Y, 0.0, max_interior=1)
+    out = [{'x': a, 'y': b} for a in sx for b in sy]
+    return out[::3] if tier == 'quick' else out
+
+
+def int_formulas():
+    I = ((0, 1), (1, 2))
+    fs = list(F.F(1, F.unary_ops(I, ops=DENSE_U), F.binary_ops(I, ops=DENSE_B), [(F.PX, F.PY, F.X)]))
+    fs += [('pred', '>', ('+', F.X, F.Y), F.C1), ('pred', '==', F.X, F.Y), ('pred', '>=', ('*', F.X, F.Y), F.C0), ('pred', '<=', ('/', F.X, F.C2), F.Y)]
+    return fs
+
+
+def int_signal_sets(nvars, tier):
+    """time-stamps and values are Python ints (sampling instants 0..3, independent per variable)"""
+    def ints(sigs):
+        return [tuple((int(t), int(v)) for t, v in s) for s in sigs]
+    sx = ints(dref.signals_L(3, (-1, 2), 0.0, step=1.0))
+    if nvars == 1:
+        return [{'x': a} for a in sx]
+    sy = ints(dref.signals_L(3, (-1, 2), 0.0, max_interior=1, step=1.0))
     out = [{'x': a, 'y': b} for a in sx for b in sy]
     return out[::3] if tier == 'quick' else out
 
@@ -239,7 +260,7 @@ def run_shard(shard, tier, res):
             continue
         key = (len(vs), tier)
         if key not in cache:
-            cache[key] = big_signal_sets(tier) if shard.get('big') else deep_signal_sets(len(vs), tier) if shard.get('deep') \
+            cache[key] = int_signal_sets(len(vs), tier) if shard.get('ints') else big_signal_sets(tier) if shard.get('big') else deep_signal_sets(len(vs), tier) if shard.get('deep') \
                 else signal_sets(len(vs), tier)
         for si, sig in enumerate(cache[key]):
             sig = {v: sig[v if v in sig else 'x'] for v in vs} if vs != ['y'] else {'y': sig['x']}
